@@ -28,6 +28,7 @@ mutual
     | .left v _ => v.wt
     | .right _ v => v.wt
     | .set t xs => nodupB xs && xs.all (fun a => a.ty == t)
+    | .lam .. => false          -- the checker does not cover lambdas (LAMBDA / EXEC / APPLY are rejected below)
   def Val.wtList (t : Ty) : List Val → Bool
     | [] => true
     | x :: xs => x.typeOf == t && x.wt && Val.wtList t xs
